@@ -45,4 +45,15 @@ PROPS = {
              "remove_file_by_uri = Vfs::remove_file then remove_index before reporting success, and Vfs::remove_file "
              "writes every per-file field of Vfs.",
         note="Does not decide cross-file liveness logic inside remove() bodies or memory release. Trusted as C08."),
+    "C38": dict(
+        module="c38", func="run", level="proof", crates=None,
+        technique="trait-solver obligations (Send/Sync/auto traits per field) extracted by the rustc driver + capture/await-liveness scan on coroutine MIR",
+        text="Proves, with the compiler's own trait solver, that every `unsafe impl Send/Sync` on shared state is "
+             "redundant (each field type is Send/Sync by auto-trait rules) and that all components of the shared "
+             "roots (EmmyLuaAnalysis, everything inside Arc/RwLock/Mutex of the server context) are Send+Sync on their "
+             "own; the one type whose assertion is not redundant (SemanticModel) is shown never to be captured by a "
+             "spawned task nor live across an await. A future Rc/RefCell/rowan-cursor field anywhere under the analysis "
+             "compiles silently today and is reported here.",
+        note="Does not decide equality of concurrent and sequential results nor races inside dependencies. Trusted: "
+             "rustc trait solver, emmyfacts, the per-thread table (1 entry) in rules/c38.py."),
 }
